@@ -28,6 +28,9 @@ from .sym import A, S, T, Shape, Dep, DepMethod, SymBranch, Unsupported, ShapeEr
 # --------------------------------------------------------------------------------------
 
 
+_MISSING = object()
+
+
 class UserRaise(Exception):
     """an exception raised by the interpreted program (not by the interpreter)"""
 
@@ -331,6 +334,7 @@ class Interp:
         self.call_log = []
         self.where = "?"
         self.depth = 0
+        self.undo = []
         sym.Hooks.domcheck = self._domcheck
         sym.Hooks.effect = lambda kind, arr, detail=None: self.effect(kind, arr, detail)
         sym.Hooks.defined = lambda cond, what, dom=sp.true: self.defined.append((cond, what, dom, self.where, list(self.pc)))
@@ -438,6 +442,15 @@ class Interp:
                 p.kind = "unsupported"
                 p.exc = un
                 p.where = self.where
+            for obj, name, old in reversed(self.undo):
+                try:
+                    if old is _MISSING:
+                        delattr(obj, name)
+                    else:
+                        setattr(obj, name, old)
+                except Exception:
+                    pass
+            self.undo = []
             p.pc = list(self.pc)
             p.facts = list(self.facts)
             p.effects = list(self.effects)
@@ -748,6 +761,9 @@ class Interp:
         elif isinstance(t, ast.Attribute):
             obj = self.ev(t.value, fr)
             self.effect("setattr", obj, t.attr)
+            if isinstance(obj, (type, types.ModuleType)):
+                # global state of the real program: remember it and restore it after this path
+                self.undo.append((obj, t.attr, obj.__dict__.get(t.attr, _MISSING)))
             try:
                 setattr(obj, t.attr, v)
             except Exception as ex:
